@@ -272,6 +272,20 @@ int main(int argc, char **argv) {
             sim_alloc_reset();
             e->run(derive_run_seed(vs, e->id, SIM_PROGRAM, idx), idx, p.get("tier") == "thorough");
             if(!g_violation_counts.empty()) { r.violated = true; r.sig = g_violation_counts.begin()->first; r.detail = "violation while re-running index " + p.get("rerun_index"); }
+        } else if(!p.get("rerun_range").empty()) {
+            // the whole sequence of run indices a worker went through, up to the failing one, in this fresh process
+            unsigned long long a = 0, st = 1, b = 0; sscanf(p.get("rerun_range").c_str(), "%llu %llu %llu", &a, &st, &b);
+            uint64_t vs = strtoull(p.get("verif_seed", "1").c_str(), 0, 10); bool th = p.get("tier") == "thorough";
+            if(!st) st = 1;
+            std::map<std::string, uint64_t> before;
+            for(uint64_t i = a; i <= b; i += st) {
+                if(i + st > b) before = g_violation_counts;
+                EV.reset(); sim_alloc_reset(); status_index(i); status_progress();
+                e->run(derive_run_seed(vs, e->id, SIM_PROGRAM, i), i, th);
+            }
+            for(auto &kv : g_violation_counts) if(!before.count(kv.first) || before[kv.first] != kv.second) { r.violated = true; r.sig = kv.first; break; }
+            if(!r.violated && !g_violation_counts.empty()) { r.violated = true; r.sig = g_violation_counts.begin()->first; }
+            if(r.violated) r.detail = "violation at the end of the run-index history " + p.get("rerun_range") + " (depends on what the process did before)";
         } else r = e->replay(p);
         if(keeplog) fputs(EV.text.c_str(), stderr);
         printf("{\"type\":\"replay\",\"property\":\"%s\",\"violated\":%s,\"skipped\":%s,\"sig\":\"%s\",\"detail\":\"%s\",\"log_hash\":\"%016llx\"}\n",
@@ -297,6 +311,7 @@ int main(int argc, char **argv) {
         EV.reset();
         EV.ev("seed %llu", (unsigned long long)rs);
         sim_alloc_reset();
+        { char hb2[160]; snprintf(hb2, sizeof hb2, "%llu %llu %llu %llu %s", (unsigned long long)seed, (unsigned long long)start, (unsigned long long)stride, (unsigned long long)i, thorough ? "thorough" : "quick"); g_history = hb2; }
         e->run(rs, i, thorough);
         G.log_hash += EV.h;
         G.add("runs");
